@@ -12,6 +12,11 @@
 (* every call's output is one output batch, otherwise outputs are          *)
 (* re-chunked to B rows.                                                   *)
 (*                                                                         *)
+(* The source may fail too: reading input batch j raises for j in SrcBad   *)
+(* and the next read continues with batch j + 1 (SequenceDataSource over   *)
+(* data with unreadable positions, any iterator that can go on after an    *)
+(* error).  With skipping such a batch is lost before any re-batching.     *)
+(*                                                                         *)
 (* Meaning with skipping: the calls that raise are dropped, every other    *)
 (* row is delivered exactly once, in order; for assign / sink / filter     *)
 (* every delivered record still pairs the rows with their own inputs.      *)
@@ -22,8 +27,8 @@ EXTENDS Integers, Sequences, FiniteSets, TLC, Json
 
 CONSTANTS MaxN, Sizes, MaxBad
 
-VARIABLES n, s, k, b, bad, done
-vars == <<n, s, k, b, bad, done>>
+VARIABLES n, s, k, b, bad, sbad, done
+vars == <<n, s, k, b, bad, sbad, done>>
 
 Min(x, y) == IF x < y THEN x ELSE y
 Rows == [j \in 1..n |-> j]
@@ -33,8 +38,13 @@ RECURSIVE Flat(_)
 Flat(ss) == IF ss = <<>> THEN <<>> ELSE Head(ss) \o Flat(Tail(ss))
 Range(q) == {q[j] : j \in 1..Len(q)}
 
-InBatches == Chunks(Rows, s)
-Calls     == IF k = 0 THEN InBatches ELSE Chunks(Rows, k)          \* what the function is called with
+AllIn     == Chunks(Rows, s)                                        \* what the source holds
+RECURSIVE Keep(_, _)
+Keep(q, j) == IF j > Len(q) THEN <<>> ELSE (IF j \in sbad THEN <<>> ELSE <<q[j]>>) \o Keep(q, j + 1)
+InBatches == Keep(AllIn, 1)                                         \* what can be read from it
+RowsIn    == Flat(InBatches)
+SrcLost   == UNION {Range(AllIn[j]) : j \in sbad}
+Calls     == IF k = 0 THEN InBatches ELSE Chunks(RowsIn, k)        \* what the function is called with
 Fails(c)  == Range(c) \cap bad # {}
 GoodCalls == SelectSeq(Calls, LAMBDA c : ~Fails(c))
 \* with skipping: rows of the calls that did not raise
@@ -42,6 +52,7 @@ SkipRows  == Flat(GoodCalls)
 SkipOut   == IF b = 0 THEN GoodCalls ELSE Chunks(SkipRows, b)       \* apply: the output batches (row r stands for r + 100)
 \* without skipping: calls before the first failing one
 FirstFail == IF \E j \in 1..Len(Calls) : Fails(Calls[j]) THEN CHOOSE j \in 1..Len(Calls) : Fails(Calls[j]) /\ \A m \in 1..(j - 1) : ~Fails(Calls[m]) ELSE 0
+\* (the strict meaning is stated for readable sources only: sbad = {})
 StrictRows == IF FirstFail = 0 THEN Rows ELSE Flat(SubSeq(Calls, 1, FirstFail - 1))
 \* only complete output batches are out before the error (a partial re-batch buffer is lost with it)
 StrictOut  == IF b = 0 THEN (IF FirstFail = 0 THEN Calls ELSE SubSeq(Calls, 1, FirstFail - 1))
@@ -51,24 +62,26 @@ StrictOut  == IF b = 0 THEN (IF FirstFail = 0 THEN Calls ELSE SubSeq(Calls, 1, F
 Init == /\ n \in 0..MaxN /\ s \in Sizes \ {0} /\ k \in Sizes /\ b \in Sizes
         /\ (k # 0 => b # 0)                      \* fn_batch_size needs batch_size (rejected at build time otherwise)
         /\ bad \in {x \in SUBSET (1..n) : Cardinality(x) <= MaxBad}
+        /\ sbad \in {x \in SUBSET (1..((n + s - 1) \div s)) : Cardinality(x) <= 1 /\ (x # {} => Cardinality(bad) <= 1)}
         /\ done = FALSE
-Next == ~done /\ done' = TRUE /\ UNCHANGED <<n, s, k, b, bad>>
+Next == ~done /\ done' = TRUE /\ UNCHANGED <<n, s, k, b, bad, sbad>>
 Spec == Init /\ [][Next]_vars
 
 \* ------------------------------------------------------------ laws
 IsSubSeq(q, r) == \A i, j \in 1..Len(q) : i < j => q[i] < q[j]     \* rows are increasing numbers
 \* with skipping nothing but the rows of failing calls is lost, nothing is duplicated, order is kept
-SkipLaw == /\ Range(SkipRows) = (1..n) \ UNION {Range(Calls[j]) : j \in {m \in 1..Len(Calls) : Fails(Calls[m])}}
+SkipLaw == /\ Range(SkipRows) = ((1..n) \ SrcLost) \ UNION {Range(Calls[j]) : j \in {m \in 1..Len(Calls) : Fails(Calls[m])}}
            /\ IsSubSeq(SkipRows, Rows) /\ Flat(SkipOut) = SkipRows
 \* a row that is not in a failing call is never lost, whatever the batching options
-NoSilentLoss == \A r \in 1..n : (\A j \in 1..Len(Calls) : r \in Range(Calls[j]) => ~Fails(Calls[j])) => r \in Range(Flat(SkipOut))
+NoSilentLoss == \A r \in (1..n) \ SrcLost : (\A j \in 1..Len(Calls) : r \in Range(Calls[j]) => ~Fails(Calls[j])) => r \in Range(Flat(SkipOut))
 \* without skipping the delivered rows are a prefix, and complete when nothing fails
-StrictLaw == /\ Flat(StrictOut) = SubSeq(Rows, 1, Len(Flat(StrictOut)))
+StrictLaw == sbad = {} =>
+             /\ Flat(StrictOut) = SubSeq(Rows, 1, Len(Flat(StrictOut)))
              /\ (bad = {} => Flat(StrictOut) = Rows)
              /\ (bad # {} => FirstFail # 0)
 
-Emit == PrintT(<<"H", ToJson([n |-> n, s |-> s, k |-> k, b |-> b, bad |-> bad, in_batches |-> InBatches,
+Emit == PrintT(<<"H", ToJson([n |-> n, s |-> s, k |-> k, b |-> b, bad |-> bad, src_bad |-> sbad, all_in |-> AllIn, in_batches |-> InBatches,
                                skip_out |-> SkipOut, skip_rows |-> SkipRows, strict_out |-> StrictOut,
                                strict_error |-> (FirstFail # 0)])>>)
-View == <<n, s, k, b, bad>>
+View == <<n, s, k, b, bad, sbad>>
 =============================================================================
